@@ -74,25 +74,30 @@ Definition decode_header (h : bytes) : bytes * bytes + err :=
 (* commonHeader.Set(key, val) *)
 Definition header_set (k v : bytes) (h : headers) : headers := hset (canon_key k) v h.
 
-(* ---------- make([]byte, size) + io.ReadFull ----------
-   Every allocation whose size was read from the input is an explicit effect: [AOk]/[AShort]
-   carry the number of bytes allocated. runtime.makeslice panics for a negative length and
-   for a length above maxAlloc (2^48 on linux/amd64); anything else is really allocated. *)
+(* ---------- decoders.readBody(reader, size) ----------
+   Reads exactly [size] bytes of a body whose size was read from the input. A negative size is
+   an error. Memory: min(size, maxBodyPrealloc) is reserved up front, the buffer then grows
+   only with the data actually read; the amount is an explicit effect of [AOk]/[AShort]. *)
 Inductive ares :=
 | AOk (buf rest : bytes) (alloc : N)
-| AShort (alloc : N)             (* io.ReadFull: EOF / unexpected EOF *)
+| AShort (alloc : N)             (* io.EOF / io.ErrUnexpectedEOF: fewer than size bytes left *)
 | AErr (e : err)
 | APanic.
 
+Definition max_prealloc : N := 1048576.
+(* the theorems still carry this bound on body sizes (2^48, the former makeslice limit) *)
 Definition max_alloc : Z := 281474976710656.
 
+Definition alloc_of (n avail : N) : N := N.max (N.min n max_prealloc) (N.min n avail).
+
 Definition alloc_read (size : Z) (rest : bytes) : ares :=
-  if (Z.ltb size 0 || Z.ltb max_alloc size)%bool then APanic
+  if Z.ltb size 0 then AErr EBadSize
   else
     let n := Z.to_N size in
+    let a := alloc_of n (nlen rest) in
     match read_full n rest with
-    | Some (b, r) => AOk b r n
-    | None => AShort n
+    | Some (b, r) => AOk b r a
+    | None => AShort a
     end.
 
 (* ---------- rendering of lines ---------- *)
